@@ -120,7 +120,12 @@ char *strtok_r(char *s, const char *delim, char **save)
 	return ca == '\0' ? NULL : g_str + a;
 }
 
-/* snprintf(s, 64, "%s", token): see the head of the file */
+/* snprintf(s, 64, "%s", token): see the head of the file.  The destination is the name of an argument of the harness
+ * definition; it is written through the TYPED path h_spec.args[q].name[i] (written through the char pointer, every
+ * character is a byte update of the 1.7 KB definition at a symbolic offset, field sensitivity is lost for the whole
+ * object and symbolic execution does not finish: measured). */
+#include "ev_spec.h"
+struct ev_spec h_spec;      /* typed harness object */
 static int a5_snprintf_name(char *s, size_t n, const char *fmt, const char *src)
 {
 	__CPROVER_assert(fmt[0] == '%' && fmt[1] == 's' && fmt[2] == '\0', "snprintf model: a string is printed with %s");
@@ -128,9 +133,17 @@ static int a5_snprintf_name(char *s, size_t n, const char *fmt, const char *src)
 	__CPROVER_assert(n == 64, "snprintf model: into an argument name");
 	long len = g_tk.last_e - g_tk.last_a;
 	long m = len < 63 ? len : 63;
-	char fresh[64];                       /* arbitrary */
-	for (int i = 0; i < 64; i++)
-		s[i] = (i == m) ? '\0' : (i < m && i == g_j) ? src[i] : (i < m) ? fresh[i] : s[i];
+	char obs = (g_j >= 0 && g_j < m) ? src[g_j] : '\0';
+	int hit = 0;
+	for (int q = 0; q < MAX_ARGS; q++) {
+		if (s == h_spec.args[q].name) {
+			hit = 1;
+			char fresh[64];                       /* arbitrary */
+			for (int i = 0; i < 64; i++)
+				h_spec.args[q].name[i] = (i == m) ? '\0' : (i < m && i == g_j) ? obs : (i < m) ? fresh[i] : h_spec.args[q].name[i];
+		}
+	}
+	__CPROVER_assert(hit, "snprintf model: the destination is the name of an argument of the harness definition");
 	return len > 0x7fffffffL ? 0x7fffffff : (int) len;
 }
 /* the print path (run-time format): not part of these groups */
@@ -247,7 +260,6 @@ __CPROVER_ensures(g_diag - OLD(g_diag) <= 3 && g_warn == OLD(g_warn) && g_tk.cal
 /* the text still ends with NUL */
 __CPROVER_ensures(g_str[A5_SLEN] == '\0')
 ;
-struct ev_spec h_spec;      /* typed harness object */
 void h_parse_arg(void)
 {
 	long len = nondet_long();
